@@ -462,7 +462,7 @@ func ObligationScriptsSplit(o *Obligation) [][]string {
 	var out [][]string
 	for _, m := range []int{1, 2} {
 		var variants []string
-		for _, h := range []int{0, sliceLoop, 1, 2} {
+		for _, h := range []int{0, sliceLoop, 1} {
 			if h == sliceLoop && o.LoopFrom == 0 {
 				continue
 			}
